@@ -11,9 +11,10 @@ mask words).
 import Proofs.Lemmas.C06Walk
 import Proofs.Lemmas.C06Match
 import Proofs.Lemmas.C06Proj
+import Proofs.Lemmas.C06ParseInd
 
 namespace C06
-open Proc.FilterEval Spec.FilterSem Proc.Extract
+open Proc.FilterEval Spec.FilterSem Proc.Extract Proc.Tok Proc.FilterText C07
 
 theorem matchWF_of (f : FilterFn) (res : Res) (h : OutWF res.values.length (f res)) :
     MatchWF (filterMatch f res) := h
@@ -250,5 +251,183 @@ def exResF12 : Res := { name := Bytes.ofString "Foo/size=1", config := [], value
 example : exProjs.flatten.all (inFixed (fullnameKeysOf exProjs) · exResF12) = true := by decide +kernel
 example : projValue (fullnameKeysOf exProjs) dotFullname exResF12 = [70, 111, 111] := by decide +kernel
 example : decide (exResF12.name ∈ [[70, 111, 111], [66, 97, 114]]) = false := by decide +kernel
+
+/-! ## text level: parser model (C07) ∘ evaluator model -/
+
+/-- **eval_test_text**: if the parser model accepts the text with tree `t` and NewFilter compiles
+it, measurement `i` is matched iff ⟦t⟧ holds at `i`. -/
+theorem eval_test_text (cx : Ctx) (re : ReOracle) (text : Bytes) (t : Filter) (f : FilterFn) (res : Res) (i : Nat)
+    (_hp : filterOfText cx text = .ok t) (hw : walk re t = .ok f) (hi : i < res.values.length) :
+    (filterMatch f res).test i = denote re res i t :=
+  eval_test re t f res i hw hi
+
+/-- the same through `newFilterText` (= `benchproc.NewFilter` on the text) -/
+theorem newFilterText_test (cx : Ctx) (re : ReOracle) (text : Bytes) (f : FilterFn)
+    (h : newFilterText cx re text = .ok f) :
+    ∃ t, filterOfText cx text = .ok t ∧ walk re t = .ok f ∧
+      ∀ res i, i < res.values.length → (filterMatch f res).test i = denote re res i t := by
+  unfold newFilterText at h
+  cases ht : filterOfText cx text with
+  | error e => simp [ht] at h
+  | ok t =>
+    simp only [ht] at h
+    cases hw : walk re t with
+    | error e => simp [hw] at h
+    | ok g =>
+      simp only [hw] at h
+      cases h
+      exact ⟨t, rfl, hw, fun res i hi => eval_test re t f res i hw hi⟩
+
+/-- **text_semantics**: every well-formed expression of the literal fragment — terms `k:v`, value
+lists `k:(a OR b …)`, `*`, `-x`, parentheses, juxtaposition / `AND`, `OR`, over bare words that
+satisfy C07's bare-word conditions or quoted literals — is accepted by the parser model, and the
+tree it builds denotes the ordinary boolean meaning `semE` of the expression. -/
+theorem text_semantics (cx : Ctx) (E : List (List (Bool × S))) (hne : E ≠ []) (hok : okE cx E) :
+    ∃ t, filterOfText cx (renderE E) = .ok t ∧ ∀ re res i, denote re res i t = semE re res i E :=
+  filterOfText_render cx E hne hok
+
+/-- … hence `Test(i)` of the filter compiled from the TEXT is the boolean meaning of the text. -/
+theorem text_filter_test (cx : Ctx) (re : ReOracle) (E : List (List (Bool × S))) (hne : E ≠ []) (hok : okE cx E)
+    (f : FilterFn) (h : newFilterText cx re (renderE E) = .ok f) (res : Res) (i : Nat) (hi : i < res.values.length) :
+    (filterMatch f res).test i = semE re res i E := by
+  obtain ⟨t, ht, hd⟩ := text_semantics cx E hne hok
+  obtain ⟨t', ht', _, htest⟩ := newFilterText_test cx re _ f h
+  rw [ht] at ht'; cases ht'
+  rw [htest res i hi, hd]
+
+theorem semT_eq_all (re : ReOracle) (res : Res) (i : Nat) (items : List (Bool × S)) :
+    semT re res i items = items.all (fun p => sem re res i p.2) := by
+  induction items with
+  | nil => simp [semT]
+  | cons p r ih => obtain ⟨b, s⟩ := p; simp [semT, ih]
+
+theorem semE_eq_any (re : ReOracle) (res : Res) (i : Nat) (E : List (List (Bool × S))) :
+    semE re res i E = E.any (fun a => a.all (fun p => sem re res i p.2)) := by
+  induction E with
+  | nil => simp [semE]
+  | cons a r ih => simp [semE, ih, semT_eq_all]
+
+theorem renderE_single (a : List (Bool × S)) : renderE [a] = renderA a := by rw [renderE]
+theorem renderA_single (b : Bool) (s : S) : renderA [(b, s)] = render s := by
+  rw [renderA, renderT, List.append_nil]
+
+theorem any_termHolds_mem (re : ReOracle) (res : Res) (i : Nat) (kv : Bytes) (hk : kv ≠ dotUnit) :
+    ∀ vs : List (Bytes × Bytes),
+      vs.any (fun p => termHolds re res i kv (.lit p.2)) = decide (keyValue kv res ∈ vs.map (·.2))
+  | [] => by simp
+  | p :: r => by
+    have ih := any_termHolds_mem re res i kv hk r
+    simp only [List.any_cons, List.map_cons, List.mem_cons, ih]
+    simp only [termHolds, hk, if_false, valueHolds]
+    by_cases hp : keyValue kv res = p.2 <;> simp [hp]
+
+/-- **value_list_sugar_text**: for a key word `k` and words a₁ … aₙ (bare under C07's conditions,
+or quoted literals) the text `k:(a₁ OR … OR aₙ)` is accepted and means "the key's value is one of
+a₁ … aₙ" (for `.unit`: some aᵢ matches measurement i's unit). -/
+theorem value_list_sugar_text (cx : Ctx) {k1 : UInt8} {kt kv : Bytes} (hk : Word cx false k1 kt kv)
+    (vs : List (Bytes × Bytes)) (hne : vs ≠ []) (hw : ∀ p, p ∈ vs → ∃ k, Word cx true k p.1 p.2) :
+    ∃ t, filterOfText cx (kt ++ cColon :: cLP :: (renderVs vs ++ [cRP])) = .ok t ∧
+      ∀ re res i,
+        denote re res i t = vs.any (fun p => termHolds re res i kv (.lit p.2)) ∧
+        (kv ≠ dotUnit → denote re res i t = decide (keyValue kv res ∈ vs.map (·.2))) := by
+  obtain ⟨t, ht, hd⟩ := text_semantics cx [[(false, .list kt kv vs)]] (by simp)
+    (by simp only [okE, okT, okS]; exact ⟨by simp, ⟨⟨⟨k1, hk⟩, hne, hw⟩, trivial⟩, trivial⟩)
+  rw [renderE_single, renderA_single, render] at ht
+  refine ⟨t, ht, fun re res i => ?_⟩
+  have h1 : denote re res i t = vs.any (fun p => termHolds re res i kv (.lit p.2)) := by
+    rw [hd]; simp [semE, semT, sem]
+  exact ⟨h1, fun hne' => by rw [h1, any_termHolds_mem re res i kv hne' vs]⟩
+
+/-- **juxtaposition_is_and**: well-formed terms written one after the other, separated by a space
+or by ` AND `, are accepted and mean the conjunction of the terms. -/
+theorem juxtaposition_is_and (cx : Ctx) (items : List (Bool × S)) (hne : items ≠ []) (hok : okT cx items) :
+    ∃ t, filterOfText cx (renderA items) = .ok t ∧
+      ∀ re res i, denote re res i t = items.all (fun p => sem re res i p.2) := by
+  obtain ⟨t, ht, hd⟩ := text_semantics cx [items] (by simp) (by simp only [okE]; exact ⟨hne, hok, trivial⟩)
+  rw [renderE_single] at ht
+  exact ⟨t, ht, fun re res i => by rw [hd]; simp [semE, semT_eq_all]⟩
+
+/-- **or_is_or**: juxtapositions separated by ` OR ` mean their disjunction. -/
+theorem or_is_or (cx : Ctx) (E : List (List (Bool × S))) (hne : E ≠ []) (hok : okE cx E) :
+    ∃ t, filterOfText cx (renderE E) = .ok t ∧
+      ∀ re res i, denote re res i t = E.any (fun a => a.all (fun p => sem re res i p.2)) := by
+  obtain ⟨t, ht, hd⟩ := text_semantics cx E hne hok
+  exact ⟨t, ht, fun re res i => by rw [hd, semE_eq_any]⟩
+
+/-- **minus_is_not**: `-x` is accepted and means the negation of `x`. -/
+theorem minus_is_not (cx : Ctx) (m : S) (hok : okS cx m) :
+    ∃ t, filterOfText cx (cDash :: render m) = .ok t ∧ ∀ re res i, denote re res i t = !sem re res i m := by
+  obtain ⟨t, ht, hd⟩ := text_semantics cx [[(false, .neg m)]] (by simp)
+    (by simp only [okE, okT, okS]; exact ⟨by simp, ⟨hok, trivial⟩, trivial⟩)
+  rw [renderE_single, renderA_single, render] at ht
+  exact ⟨t, ht, fun re res i => by rw [hd]; simp [semE, semT, sem]⟩
+
+/-- **star_is_true**: `*` is accepted and true of every measurement; `-*` is false. -/
+theorem star_is_true (cx : Ctx) :
+    (∃ t, filterOfText cx [cStar] = .ok t ∧ ∀ re res i, denote re res i t = true) ∧
+    (∃ t, filterOfText cx [cDash, cStar] = .ok t ∧ ∀ re res i, denote re res i t = false) := by
+  constructor
+  · obtain ⟨t, ht, hd⟩ := text_semantics cx [[(false, .star)]] (by simp) (by simp [okE, okT, okS])
+    rw [renderE_single, renderA_single, render] at ht
+    exact ⟨t, ht, fun re res i => by rw [hd]; simp [semE, semT, sem]⟩
+  · obtain ⟨t, ht, hd⟩ := minus_is_not cx .star (by simp [okS])
+    rw [render] at ht
+    exact ⟨t, ht, fun re res i => by rw [hd]; simp [sem]⟩
+
+/-! ### non-vacuity of the text-level theorems -/
+
+def cx0 : Ctx := { n := 0, compileOK := fun _ => true, isSpaceHi := fun _ => false }
+
+def bUnit : Bytes := [46, 117, 110, 105, 116]          -- .unit
+def bNsOp : Bytes := [110, 115, 47, 111, 112]          -- ns/op
+def bBop : Bytes := [66, 47, 111, 112]                 -- B/op
+def bGoos : Bytes := [103, 111, 111, 115]              -- goos
+def bLinux : Bytes := [108, 105, 110, 117, 120]        -- linux
+
+theorem w_unit : Word cx0 false kW bUnit bUnit :=
+  Word.bare 46 _ ⟨by decide, by decide, fun _ => by decide, by decide +kernel⟩ (by decide) (by decide)
+theorem w_nsop : Word cx0 true kW bNsOp bNsOp :=
+  Word.bare 110 _ ⟨by decide, by decide, fun _ => by decide, by decide +kernel⟩ (by decide) (by decide)
+theorem w_goos : Word cx0 false kW bGoos bGoos :=
+  Word.bare 103 _ ⟨by decide, by decide, fun _ => by decide, by decide +kernel⟩ (by decide) (by decide)
+theorem w_linux : Word cx0 true kW bLinux bLinux :=
+  Word.bare 108 _ ⟨by decide, by decide, fun _ => by decide, by decide +kernel⟩ (by decide) (by decide)
+/-- the quoted literal `"B/op"` -/
+theorem w_bop : Word cx0 true kQ (cQuote :: (bBop ++ [cQuote])) bBop :=
+  Word.quoted bBop bBop
+    (Items.plain (by decide) (by decide) (Items.plain (by decide) (by decide)
+      (Items.plain (by decide) (by decide) (Items.plain (by decide) (by decide) Items.nil))))
+    (by decide +kernel)
+
+/-- `.unit:(ns/op OR "B/op") AND -goos:linux *` -/
+def exE : List (List (Bool × S)) :=
+  [[(false, .list bUnit bUnit [(bNsOp, bNsOp), (cQuote :: (bBop ++ [cQuote]), bBop)]),
+    (true, .neg (.term bGoos bGoos bLinux bLinux)),
+    (false, .star)]]
+
+theorem exE_ok : okE cx0 exE := by
+  simp only [exE, okE, okT, okS]
+  refine ⟨by simp, ⟨⟨⟨_, w_unit⟩, by simp, ?_⟩, ⟨⟨_, w_goos⟩, ⟨_, w_linux⟩⟩, trivial, trivial⟩, trivial⟩
+  intro p hp
+  simp only [List.mem_cons, List.not_mem_nil, or_false] at hp
+  rcases hp with rfl | rfl
+  · exact ⟨_, w_nsop⟩
+  · exact ⟨_, w_bop⟩
+
+example : renderE exE = Bytes.ofString ".unit:(ns/op OR \"B/op\") AND -goos:linux *" := by decide +kernel
+
+/-- the theorem applies to this text … -/
+example : ∃ t, filterOfText cx0 (renderE exE) = .ok t ∧ ∀ re res i, denote re res i t = semE re res i exE :=
+  text_semantics cx0 exE (by simp [exE]) exE_ok
+
+/-- … and the parser model really evaluates it (kernel computation, end to end from the text):
+on `Foo`, goos=darwin, units [ns/op, B/op, x] the filter matches 1 1 0 -/
+example :
+    (match newFilterText cx0 (fun _ _ => false) (Bytes.ofString ".unit:(ns/op OR \"B/op\") AND -goos:linux *") with
+     | .ok f =>
+       let m := filterMatch f { name := [70, 111, 111], config := [(bGoos, [100])],
+                                 values := [⟨bNsOp, [], 0⟩, ⟨bBop, [], 1⟩, ⟨[120], [], 2⟩] }
+       m.test 0 && m.test 1 && !m.test 2
+     | .error _ => false) = true := by decide +kernel
 
 end C06
